@@ -39,8 +39,10 @@ impl<S: Runtime + 'static> Loop<'_, S> {
         while super::evaluate_condition(self.env, self.condition_command).await?
             == self.expected_condition
         {
-            self.body.execute(self.env).await?;
+            let result = self.body.execute(self.env).await;
+            // The body counts as executed even if it ended with `continue` etc.
             self.exit_status = self.env.exit_status;
+            result?;
         }
         Continue(())
     }
